@@ -61,6 +61,14 @@ CLAIMED = {
          "Model checking over all 79^3 triples of the abstract pool plus trace validation of the real Value::eq / Hash on the full 79 x 79 matrix (every variant incl. feature types, NULLs, +0/-0, NaN payloads, JSON key order, decimal scales, arrays and nested arrays).",
          "Trusted: TLC; the payload-class table of ValueEq.tla; std's DefaultHasher as the fixed hasher.",
          "§5 C18"),
+ "C07": ("Clause-level SQLite grammar in TLA+ (EngineGrammar) parses the real SQLite rendering of every generated statement against Expected(builder state); TLC also prints RefStmt, an independently written fully explicit rendering of the same builder state; inline form, parameterised form and reference are executed on the real SQLite over a fresh fixture and must return the same rows and leave the same tables",
+         "Model checking generates the statements (pairwise-complete clause products, simulated deeper combinations); trace validation parses each real rendering with SQLite's clause grammar (clauses once, in grammar position, items in order, expression trees equal) and the engine differential executes crate output vs. reference: syntax errors, differing rows/RETURNING/table contents are violations; the real engine is authoritative where it and the grammar model disagree (MODEL-GAP notes).",
+         "Trusted: SQLite 3.40.1; RefStmt.tla as the meaning of the builder calls; TLC.",
+         "§5 C07"),
+ "C08": ("Clause-level grammars of MySQL and PostgreSQL for the emitted subset written in TLA+ (EngineGrammar.tla) and the expected abstract statement per dialect (GrammarLaw!Expected); TLC parses the real renderings of all generated statements and compares clause by clause",
+         "Trace validation of the real MySQL / PostgreSQL renderings of the TLC-generated statement space: ParseStmt_B(Lex_B(sql)) must be accepted and equal Expected(B, builder state) — every supported clause once, in the position the grammar requires, items in call order, expressions as built, dialect forms (ON DUPLICATE KEY UPDATE / VALUES(col), UPDATE..JOIN..ON, ROW(..), NULLS emulation, index hints; DISTINCT ON, excluded.col, NULLS FIRST/LAST) in their own dialect only.",
+         "Trusted: the transcribed MySQL 8.0 / PostgreSQL 15 grammars (no engine available; permissive where the manuals are silent). Several known findings (named WINDOW clause, WITH before INSERT, ON DUPLICATE KEY IGNORE, dropped second JOIN table).",
+         "§5 C08, Appendix C.3"),
 }
 NA = {
  "C20": "Type-level fact about Rust auto-traits decided only by rustc's trait solver; no state, transition or observable behaviour to model or trace (DESIGN.md §5 C20).",
